@@ -159,6 +159,18 @@ theorem add_is_hconcat (a b : Basis K) (ha : WF a) (hb : WF b) (h : a.npix = b.n
       r.isSparse = (a.isSparse || b.isSparse) ∧
       toDense r = List.zipWith (· ++ ·) (toDense a) (toDense b) := add_spec a b ha hb h
 
+/-- **In-place concatenation** (`extend`, `append`) glues the new columns to the right as well,
+keeping the storage form of the basis that is extended. -/
+theorem extend_is_hconcat (a b : Basis K) (ha : WF a) (hb : WF b) (h : a.npix = b.npix) :
+    ∃ r, extend a b = some r ∧ WF r ∧ r.npix = a.npix ∧ r.nmodes = a.nmodes + b.nmodes ∧
+      r.isSparse = a.isSparse ∧
+      toDense r = List.zipWith (· ++ ·) (toDense a) (toDense b) := extend_spec a b ha hb h
+
+theorem append_is_hconcat (a : Basis K) (ha : WF a) (v : List K) (hv : v.length = a.npix) :
+    ∃ r, append a v = some r ∧ WF r ∧ r.npix = a.npix ∧ r.nmodes = a.nmodes + 1 ∧
+      r.isSparse = a.isSparse ∧
+      toDense r = List.zipWith (· ++ ·) (toDense a) (v.map fun x => [x]) := append_spec a ha v hv
+
 /-- Bases over grids of different size cannot be added (`ValueError`). -/
 theorem add_shape_mismatch (a b : Basis K) (h : a.npix ≠ b.npix) : add a b = none := by
   simp [add, h]
